@@ -719,6 +719,10 @@ pub fn c17(c: &mut Ctx, b: &Budget) {
         // digest get salts proportional to their own sizes, in whatever order they are salted
         if i % 3 == 0 {
             let mut forms: Vec<(&str, Envelope)> = vec![("full", e.clone()), ("elided", e.elide()), ("compressed", e.compress().unwrap_or(e.clone())), ("wrapped", e.wrap_envelope())];
+            // ... and of a padded copy, so that the obscured forms that carry their payload (compressed, encrypted) are large while the elided one is not
+            let padded = e.add_assertion("padding", CBOR::to_byte_string((0..1500u32).map(|x| (x.wrapping_mul(2654435761) >> 11) as u8).collect::<Vec<u8>>()));
+            forms.push(("padded", padded.clone())); forms.push(("padded-elided", padded.elide())); forms.push(("padded-compressed", padded.compress().unwrap_or(padded.clone())));
+            forms.push(("padded-encrypted", padded.encrypt(&SymmetricKey::new()))); forms.push(("padded-subject-encrypted", padded.wrap_envelope().encrypt_subject(&SymmetricKey::new()).unwrap()));
             if let Some(a) = e.assertions().first() { forms.push(("assertion-elided", e.elide_removing_target(a))); }
             forms.push(("subject-elided", e.elide_removing_target(&e.subject())));
             c.rng.shuffle(&mut forms);
